@@ -150,3 +150,16 @@ impl<const N: usize> AsyncWrite for TailWriter<N> {
     fn poll_flush(self: Pin<&mut Self>, _: &mut Context<'_>) -> Poll<std::io::Result<()>> { Poll::Ready(Ok(())) }
     fn poll_shutdown(self: Pin<&mut Self>, _: &mut Context<'_>) -> Poll<std::io::Result<()>> { Poll::Ready(Ok(())) }
 }
+
+/// writer that only counts (no loop over the data)
+pub struct CountWriter { pub total: usize, pub writes: usize }
+impl CountWriter { pub fn new() -> Self { Self { total: 0, writes: 0 } } }
+impl AsyncWrite for CountWriter {
+    fn poll_write(mut self: Pin<&mut Self>, _: &mut Context<'_>, data: &[u8]) -> Poll<std::io::Result<usize>> {
+        self.total += data.len();
+        self.writes += 1;
+        Poll::Ready(Ok(data.len()))
+    }
+    fn poll_flush(self: Pin<&mut Self>, _: &mut Context<'_>) -> Poll<std::io::Result<()>> { Poll::Ready(Ok(())) }
+    fn poll_shutdown(self: Pin<&mut Self>, _: &mut Context<'_>) -> Poll<std::io::Result<()>> { Poll::Ready(Ok(())) }
+}
